@@ -148,6 +148,22 @@ func c05Run(c *run.Ctx, ci int, k c05Case) {
 		s.Redeem(g, sim.RedeemOpts{})
 	}
 	s.Sweep("issue")
+	if (k.Origin == "code" || k.Origin == "hybrid") && ci%5 == 0 && k.Refresh != "none" {
+		// the request asks for the refresh scope but the resource owner grants nothing of it: no refresh token
+		want := []string{"fosite", "offline"}
+		gr := []string{}
+		rt := "code"
+		if k.Origin == "hybrid" {
+			want, gr, rt = []string{"openid", "fosite", "offline"}, []string{"openid"}, "code id_token"
+		}
+		if k.Strategy == "wildcard" || k.Strategy == "hierarchic" || k.Strategy == "exact" {
+			if g2 := s.Authorize(sim.AuthzReq{Client: "c5-full", RT: rt, Scopes: want, Granted: gr}); g2 != nil && g2.Code != nil {
+				s.Redeem(g2, sim.RedeemOpts{})
+				c.Case(fmt.Sprintf("issue with empty consent origin=%s refresh-cfg=%s refresh_token=%v", k.Origin, k.Refresh, g2.Latest != nil))
+				c.Count("c05_empty_consent_cases", 1)
+			}
+		}
+	}
 	c.Case(fmt.Sprintf("issue origin=%s refresh-cfg=%s client-has-refresh-grant=%v grant-has-refresh-scope=%v refresh_token=%v", k.Origin, k.Refresh, k.Client == "c5-full",
 		s.MayIssueRefresh(g, false), g.Latest != nil))
 	if g.Latest == nil {
